@@ -17,7 +17,11 @@ ListCases == UNION {{Case("flat", g, t, "list", With(BaseV(g, 1), t, ListOf(l)))
 FrameCases == {Case("flat", g, t, "frame", With(With(BaseV(g, 1), t, ObjVal), "attributedTo", ActorVal))
                : g \in Roots, t \in {"attachment", "inReplyTo", "icon", "context", "generator", "location", "url", "preview", "image"}}
                \cup {Case("flat", g, "tag", "frame", With(BaseV(g, 1), "tag", ListOf(<<ObjVal, I1>>))) : g \in Roots}
-AllFlat == SingleOK \cup ListCases \cup FrameCases
+\* roots that have no id themselves
+NoId(v) == [v EXCEPT !.p = Restrict(@, DOMAIN @ \ {"id"})]
+IdlessRoots == {Case("flat", c.lab.g, c.lab.t, "idless-root:" \o c.lab.shape, NoId(c.v)) : c \in {d \in SingleOK : d.lab.shape \in {"object", "actor", "iri", "idless"}}}
+               \cup {Case("flat", g, "to", "idless-root:list", NoId(With(BaseV(g, 1), "to", ListOf(<<ObjVal, I1, ActorVal>>)))) : g \in {"Activity", "Object", "Actor"}}
+AllFlat == SingleOK \cup ListCases \cup FrameCases \cup IdlessRoots
 GenInit == orig = NilItem /\ val = NilItem /\ phase = "gen"
 GenNext == FALSE /\ UNCHANGED vars
 ASSUME ndJsonSerialize("c16_cases.ndjson", SetToSeq(AllFlat))
